@@ -42,19 +42,19 @@ META = {
 
 def check(ctx):
     m = cc.build(ctx, "R01")
-    r01_1_filter(ctx, m, m.to_unstable[0], "R01.1")
-    r01_1_search(ctx, m)
-    r01_2(ctx, m)
-    r01_5(ctx, m)
-    r01_3(ctx, m)
-    r01_46_stable(ctx, m)
-    r01_46_unstable(ctx, m)
+    ctx.run(r01_1_filter, m, m.to_unstable[0], "R01.1")
+    ctx.run(r01_1_search, m)
+    ctx.run(r01_2, m)
+    ctx.run(r01_5, m)
+    ctx.run(r01_3, m)
+    ctx.run(r01_46_stable, m)
+    ctx.run(r01_46_unstable, m)
     from . import c03
 
-    c03.r03_7(ctx)  # the segment tables the search runs on are SO-sorted
-    c03.r03_4(ctx, None)
-    r01_8(ctx)
-    r01_9(ctx, m)
+    ctx.run(c03.r03_7)  # the segment tables the search runs on are SO-sorted
+    ctx.run(c03.r03_4, None)
+    ctx.run(r01_8)
+    ctx.run(r01_9, m)
     ctx.not_decided += [
         "utils.reverse_cigar's index arithmetic (that the reversed CIGAR is the op-wise reverse)",
         "view.run's construction of the node->interval map and contig lengths from the rGFA tags (checked only for call-site agreement in C03/C04)",
@@ -62,11 +62,11 @@ def check(ctx):
     # mechanisms this property rests on (see shared.py): a change there is reported here as well
     from . import shared as _sh
 
-    _sh.path_tokenisers(ctx)
-    _sh.gaf_reader(ctx)
-    _sh.graph_loader(ctx)
-    _sh.contig_paths(ctx)
-    _sh.cli_layer(ctx, "gaftools.cli.view")
+    ctx.run(_sh.path_tokenisers)
+    ctx.run(_sh.gaf_reader)
+    ctx.run(_sh.graph_loader)
+    ctx.run(_sh.contig_paths)
+    ctx.run(_sh.cli_layer, "gaftools.cli.view")
 
 
 # ---------------------------------------------------------------------------------------------
